@@ -566,7 +566,6 @@ func mkLookup(n calleeNames, args []Val, res Val) func(string, bool) (CVal, bool
 }
 
 func (c *Ctx) contractCall(fr *Frame, ct *Contract, callee *ssa.Function, com *ssa.CallCommon, args []Val, resT types.Type, st *State, reach string, pos token.Pos) Val {
-	ct.used = true
 	if ct.Assumed {
 		why := "assumed contract: " + ct.Name
 		if ct.Trusted != "" {
